@@ -206,6 +206,10 @@ func init() {
 	addEv("dV", "P kind 5 @3 a:0:P: (address of a plain replaceable kind)", P, 5, 3, tag("a", "0:"+pkP+":"))
 	// deletion request by Q
 	addEv("dQr1", "Q kind 5 @2 e:<r1> (other author's event)", Q, 5, 2, tag("e", evID("r1")))
+	// deletion requests referencing a deletion request of the OTHER author: the referenced request
+	// must stay, stay listed and keep blocking what it references
+	addEv("dQK", "Q kind 5 @3 e:<dR1> (other author's deletion request)", Q, 5, 3, tag("e", evID("dR1")))
+	addEv("dPK", "P kind 5 @3 e:<dQr1> (other author's deletion request)", P, 5, 3, tag("e", evID("dQr1")))
 }
 
 func labelsOf(hist []uint8) []string {
